@@ -88,13 +88,44 @@ def check_C13(chk, tier, seed):
                 chk.corr_break("outcome differs from the model's table", dict(case=c, impl=short(im), model=short(mo)))
         if i % max(1, len(cases) // 6) == 0:
             chk.sample(dict(case=c, impl=im, P=ok))
-    # the name handed to the TLS library, for host/port strings (model only: the theorem C13_domain_is_host covers all)
+    # the name handed to the TLS library (hook verif_tls_domain) against the model's domain_of, on address strings of every shape
+    hosts = ["localhost", "example.com", "a", "", "127.0.0.1", "10.0.0.1", "::1", "[::1]", "[fe80::1%eth0]", "[]", "[", "]", "[::1", "::1]", "[a]b",
+             "h\u00f4te.example", "\u4f8b\u3048.jp", "x[y]", "[[::1]]", "[::1]x"]
+    ports = [":3868", ":0", "", ":", ":abc", ":1:2", ":[", ":]", "]:5", "[:6"]
+    addrs = [h + p for h in hosts for p in ports]
+    r = rng.fork("addr")
+    alphabet = ["[", "]", ":", "a", "1", ".", "\u00e9", "%"]
+    for _ in range(400 if tier == "quick" else 20000):
+        addrs.append("".join(r.choice(alphabet) for _ in range(r.range(0, 9))))
+    dcases = [f"TLSDOMAIN {xb(a.encode())}" for a in addrs]
+    dimpl = core.run_sharded([eng.harness, "codec"], eng.prelude, dcases, shards=1, timeout=300)
+    dmodel = eng.ask_model([f"DOMAIN {xb(a.encode())}" for a in addrs])
+    for a, c, im, mo in zip(addrs, dcases, dimpl, dmodel):
+        chk.case(c, True)
+        chk.validated += 1
+        chk.count("tls-name:" + ("bracketed" if a.startswith("[") else "with-colon" if ":" in a else "bare"))
+        got = bytes.fromhex(im.split()[1][1:]).decode("utf-8", "replace") if im.startswith("DOMAIN x") else None
+        want = None
+        host, sep, port = a.rpartition(":")
+        if a.startswith("[") and "]" in a:
+            want = a[1:a.index("]")]
+        elif sep and ":" not in host and "[" not in host and "]" not in host:
+            want = host
+        elif not sep and "[" not in a:
+            want = a
+        if got is None:
+            chk.violation("the TLS server name could not be obtained: " + short(im, 200), dict(case=c, impl=short(im)))
+        elif want is not None and got != want:
+            chk.violation(f"for the address {a!r} the name handed to the TLS library is {got!r}; the host part is {want!r}", dict(case=c, impl=im, expected=want))
+        elif im != mo:
+            chk.corr_break("TLS server name differs from the model's domain_of", dict(case=c, impl=im, model=mo))
     chk.exhaustive = True
     chk.rule = ("twice (verify off before on, and on before off, within each worker process) and once more for TLS servers whose listen() is entered, left and entered again: "
                 "the full finite table {client TLS on/off} x {verify on/off} x {server plain/TLS} x {certificate trusted+matching, trusted+wrong name, untrusted} x "
                 "{host name, IP literal} = 48 cells on real sockets with static certificates (tls/), trust injected with SSL_CERT_FILE, a recording TCP relay between "
                 "client and server searching for the per-cell marker in clear text; outcome classified {plain, tls, refused, noservice} and compared with the property's "
-                "table (written independently in the orchestrator) and with the Coq model's table")
+                "table (written independently in the orchestrator) and with the Coq model's table; plus the name handed to the TLS library (hook verif_tls_domain) "
+                "for host x port strings of every shape (bracketed IPv6, no port, empty parts, stray brackets and colons, non-ASCII) and random strings, against domain_of")
     chk.assumptions = ["partial: OpenSSL / native-tls behaviour (handshake, chain and name verification, SSL_CERT_FILE) is assumed, only the library's own four decisions are modelled",
                        "timeouts: 2.5 s to connect, 2.5 s for the answer, on loopback"]
 
